@@ -243,25 +243,30 @@ func (ex *Exec) doAssert(id string, c *Term, fr *Frame, pos token.Pos) {
 	ex.nAssertQ++
 	ex.prepHard(c)
 	ex.collectSyms(c)
-	s := ex.active
 	var m map[string]string
 	ts := make([]*Term, len(ex.inputs))
 	for i, in := range ex.inputs {
 		ts[i] = in.T
 	}
-	s.push()
-	s.assert(tNot(c))
-	r := s.check()
-	if r == "sat" {
-		vals, ok := s.getValues(ts)
-		if ok {
-			m = map[string]string{}
-			for i, in := range ex.inputs {
-				m[in.Name] = fmt.Sprintf("%d", vals[i])
+	r := ex.onActive(func(s *Solver) string {
+		s.push()
+		s.assert(tNot(c))
+		r := s.check()
+		if r == "sat" {
+			vals, ok := s.getValues(ts)
+			if ok {
+				m = map[string]string{}
+				for i, in := range ex.inputs {
+					m[in.Name] = fmt.Sprintf("%d", vals[i])
+				}
 			}
 		}
+		s.pop()
+		return r
+	})
+	if r == "unknown" {
+		m = nil
 	}
-	s.pop()
 	if r == "unknown" {
 		var vals []uint64
 		r, vals = ex.fallbackQuery(tNot(c), ts)
@@ -293,14 +298,27 @@ func (ex *Exec) doAssert(id string, c *Term, fr *Frame, pos token.Pos) {
 }
 
 func (ex *Exec) crossCheck(id string, c *Term) {
-	s := ex.solver2
-	s.push()
-	for _, p := range ex.pc {
-		s.assert(p)
+	if ex.solver2.dead {
+		ex.solver2 = newSolver(ex.solver2.kind, ex.solver2.timeout)
 	}
-	s.assert(tNot(c))
-	r := s.check()
-	s.pop()
+	s := ex.solver2
+	r := "unknown"
+	func() {
+		defer func() {
+			if x := recover(); x != nil {
+				if _, ok := x.(solverDied); !ok {
+					panic(x)
+				}
+			}
+		}()
+		s.push()
+		for _, p := range ex.pc {
+			s.assert(p)
+		}
+		s.assert(tNot(c))
+		r = s.check()
+		s.pop()
+	}()
 	if r == "unknown" {
 		ex.addEvent("crossunknown", id, nil) // the second solver did not finish within its limit: no second opinion
 	} else if r != "unsat" {
